@@ -232,7 +232,12 @@ class Run:
             if var == "badsig":
                 data = b"x" + data
             sig = key.sign(data, *tls.signature_algorithm_params(SIG_ALG))
-            tls.push_certificate_verify(b, tls.CertificateVerify(algorithm=SIG_ALG, signature=sig))
+            alg = SIG_ALG
+            if var == "wrong_alg":          # advertised algorithm that does not fit the certificate's EC key
+                alg = 0x0804                # RSA_PSS_RSAE_SHA256
+            elif var == "unadvertised_alg":
+                alg = 0x0603                # ECDSA_SECP521R1_SHA512: never advertised by tls.Context
+            tls.push_certificate_verify(b, tls.CertificateVerify(algorithm=alg, signature=sig))
             return self._var(b.data, var)
         if name == "FIN":
             vd = self.shadow.finished_verify_data(self.hs_secret()) if self.shadow else b"\x00" * 48
@@ -300,6 +305,8 @@ class Run:
             h.supported_version = tls.TLS_VERSION_1_2
         elif var == "unknown_group":
             h.key_share = (0x4A4A, b"\x00")
+        elif var == "bad_point":
+            h.key_share = (tls.Group.X25519, b"\x02" * 31)
         else:
             raise ValueError(var)
         b = self._buf()
@@ -339,6 +346,8 @@ class Run:
             h.supported_versions = [tls.TLS_VERSION_1_2]
         elif var == "unknown_group":
             h.key_share = [(0x4A4A, b"\x00")]
+        elif var == "bad_point":
+            h.key_share = [(tls.Group.X25519, b"\x02" * 31)]
         else:
             raise ValueError(var)
         if h.pre_shared_key is not None:
@@ -402,8 +411,8 @@ class Run:
             self._start_shadow(ks.cipher_suite, data + sh + flight)
         elif self.shadow is not None and name in ("EE", "CR", "CERT", "CV", "FIN"):
             cert_states = (C_CR_CERT, C_CERT) if self.is_client else (S_CERT,)
-            if accepted or (name == "CERT" and kind == 2 and state_before in cert_states):
-                # (the Certificate handlers hash the message before loading the DER)
+            if accepted or (name == "CERT" and kind != 0 and var in ("empty", "garbage") and state_before in cert_states):
+                # (the Certificate handlers hash the message before _set_peer_certificate rejects the list / the DER)
                 self.shadow.update_hash(data)
             if accepted and name == "CERT":
                 self.victim_cert = var if var in env()["certs"] else ("good" if self.is_client else "client")
@@ -448,15 +457,19 @@ def msg_fields(case, op, victim_cert=None, keyed=True):
             f["fire"] = 3
         elif var == "unknown_group":
             f["share"] = 0
+        elif var == "bad_point":
+            f["fire"] = 6
     if name == "CH" and not client:
         f["psk"] = int(case["psk"] == 1)
         f["early"] = int(bool(case["early"]) and case["psk"] != 0)
         if var == "bad_binder":
             f["psk_ok"] = 0
-        elif var in ("bad_cipher", "bad_compression", "bad_sigalg", "bad_version", "unknown_group"):
+        elif var in ("bad_cipher", "bad_compression", "bad_sigalg", "bad_version", "unknown_group", "bad_point"):
             f["psk"], f["early"] = 0, 0
             if var == "unknown_group":
                 f["share"] = 0
+            elif var == "bad_point":
+                f["fire"] = 6
             else:
                 f["fire"] = {"bad_cipher": 1, "bad_compression": 2, "bad_sigalg": 3, "bad_version": 4}[var]
     if name == "CERT":
@@ -467,6 +480,10 @@ def msg_fields(case, op, victim_cert=None, keyed=True):
     if name == "CV":
         if var == "badsig":
             f["sig"] = 0
+        elif var == "wrong_alg":
+            f["fire"] = 2
+        elif var == "unadvertised_alg":
+            f["fire"] = 3
         # the certificate verdict belongs to the certificate the victim holds (last accepted Certificate)
         f["cert"] = {"untrusted": 42, "expired": 45}.get(victim_cert, 0)
     if name == "FIN" and (var == "badmac" or not keyed):
@@ -745,11 +762,13 @@ def gen_pairs(ctx):
                            "pair": [st, t]})
     # hello variants (the non-ordering raise sites and the PSK selection logic)
     for psk in (0, 1, 2):
-        for var in ("inject_psk", "psk_index", "bad_cipher", "bad_compression", "bad_version", "unknown_group", "trunc"):
+        for var in ("inject_psk", "psk_index", "bad_cipher", "bad_compression", "bad_version", "unknown_group", "bad_point",
+                    "trunc"):
             for tail in ([], [["SH"], ["EE"], ["FIN"]], [["SH", "inject_psk"], ["EE"]]):
                 ccases.append({"role": "client", "psk": psk, "early": 0, "verify": 1, "reqcert": 0,
                                "ops": [["START"], ["SH", var]] + tail})
-        for var in ("bad_binder", "bad_cipher", "bad_compression", "bad_sigalg", "bad_version", "unknown_group", "trunc"):
+        for var in ("bad_binder", "bad_cipher", "bad_compression", "bad_sigalg", "bad_version", "unknown_group", "bad_point",
+                    "trunc"):
             for req in (0, 1):
                 for early in (0, 1):
                     if var == "bad_binder" and psk != 1:
@@ -761,6 +780,11 @@ def gen_pairs(ctx):
         ccases.append(client_case(0, [["EE"], ["CERT", var], ["CERT"], ["CV"], ["FIN"]]))
         ccases.append(client_case(0, [["EE"], ["CR"], ["CERT", var], ["CERT"], ["CV"], ["FIN"]]))
         scases.append(server_case(0, 1, [["CERT", var], ["CERT", "client"], ["CV"], ["FIN"]]))
+    # CertificateVerify algorithm checks (not advertised / does not fit the certificate's key)
+    for var in ("wrong_alg", "unadvertised_alg"):
+        for verify in (1, 0):
+            ccases.append(client_case(0, [["EE"], ["CERT"], ["CV", var], ["CV"], ["FIN"]], verify=verify))
+        scases.append(server_case(0, 1, [["CERT", "client"], ["CV", var], ["CV"], ["FIN"]]))
     return ccases, scases
 
 
